@@ -12,7 +12,7 @@ from vp.runner import open_risks, stable_hash
 PID = 'C20'
 LEVEL = 'exploration'
 RULE = ("(i) the matrix backend in {default, torch, jax, fortran} x solver in {euler, heun, scipy, diffrax, bogus} x vectorize x "
-        "delay kind in {none, discrete edge delay} x sparse Jacobian, where 'unsupported' is DERIVED from the live classes "
+        "delay kind in {none, discrete edge delay; plus shaped requests: discrete matrix delay, discrete next to gamma-kernel / undelayed connections, scalar and matrix edges, either declaration order} x sparse Jacobian, where 'unsupported' is DERIVED from the live classes "
         "(SUPPORTED_SOLVERS, SUPPORTS_EDGE_DELAY_BUFFER, SUPPORTS_SPARSE_JACOBIAN, _validate_backend_args); (ii) malformed variants "
         "of generated valid models: every declared variable removed in turn, every path component of every edge / output / input / "
         "update_var key misspelt in turn, reserved variable names, two outputs per operator, cyclic operator graph inside a node, "
@@ -20,11 +20,69 @@ RULE = ("(i) the matrix backend in {default, torch, jax, fortran} x solver in {e
         "function or result is returned; for inputs and parameter updates addressed to a non-existent variable at least a warning; "
         "the check never asserts that a supported request succeeds; non-trivial = all; distinct = distinct (model, mutation) hash")
 DECIDING = ['unsupported_combos', 'misspelt_edge_paths', 'misspelt_output_paths', 'misspelt_input_paths', 'misspelt_update_paths',
-            'removed_variable', 'reserved_names', 'two_outputs', 'cyclic_node', 'missing_operator_value']
+            'removed_variable', 'reserved_names', 'two_outputs', 'cyclic_node', 'missing_operator_value', 'shaped_delay_requests_refused']
 ASSUMPTIONS = ['a supported combination that raises is not this property\'s business (C02)',
                'misspelling = appending "_zz" to one path component, which never names an existing object']
 CASE_TIMEOUT = 300
 FOCUS = ['misspelt_input_paths', 'misspelt_output_paths']
+
+
+DELAY_SHAPES = ['matrix_discrete', 'matrix_discrete+matrix_gamma', 'edge_discrete+edge_gamma', 'matrix_discrete+matrix_undelayed',
+                'edge_discrete+matrix_gamma']
+
+
+def shaped_delay_circuit(shape, order):
+    """network that needs a discrete-delay ring buffer (under a fixed-step solver) next to other connections; `order` decides
+    whether the ring-buffer connection is declared first or last"""
+    import numpy as np
+    from pyrates import OperatorTemplate, NodeTemplate, CircuitTemplate
+    from pyrates.frontend.template.population import PopulationTemplate, Connectivity
+    first, second = shape.split('+') if '+' in shape else (shape, None)
+    if first.startswith('matrix') and (second is None or second.startswith('matrix')):
+        pops = {}
+        for p in ('p1', 'p2'):
+            op = OperatorTemplate(name=f'rate_{p}', equations=["r' = (-r + eta + s_in) / tau_r"],
+                                  variables={'r': 'output(0.5)', 'eta': 2.0, 'tau_r': 0.1, 's_in': 'input(0.0)'})
+            pops[p] = PopulationTemplate(name=p, node=NodeTemplate(name=f'node_{p}', operators=[op]), n=2,
+                                         params={f'rate_{p}/r': [0.5, 1.5]})
+        a, b = ('p1', 'p2') if order == 0 else ('p2', 'p1')
+        conns = [Connectivity(source=f'{a}/rate_{a}/r', target=f'{b}/rate_{b}/s_in', weights=np.array([[0.0, 0.5], [0.7, 0.0]]),
+                              delays=0.004)]
+        if second == 'matrix_gamma':
+            conns.append(Connectivity(source=f'{b}/rate_{b}/r', target=f'{a}/rate_{a}/s_in', weights=np.array([[0.2, 0.0], [0.0, 0.4]]),
+                                      delays=0.005, spread=0.002))
+        elif second == 'matrix_undelayed':
+            conns.append(Connectivity(source=f'{b}/rate_{b}/r', target=f'{a}/rate_{a}/s_in', weights=np.array([[0.2, 0.0], [0.0, 0.4]])))
+        if order == 1:
+            conns = conns[::-1]
+        return CircuitTemplate(name='shaped', populations=pops, connections=conns), {'x': f'{b}/rate_{b}/r'}
+    if shape == 'edge_discrete+edge_gamma':
+        src = OperatorTemplate(name='src', equations=["s' = -s + 0.1"], variables={'s': 'output(0.3)'})
+        tgt = OperatorTemplate(name='tgt', equations=["x' = -x + u"], variables={'x': 'output(0.1)', 'u': 'input(0.0)'})
+        # structurally different second pair, so that vectorization does not merge the two source variables (a merged source
+        # with both kinds of delay is the recorded finding F-C11-discrete-and-gamma-same-source)
+        src2 = OperatorTemplate(name='src2', equations=["s' = -0.5*s + 0.2"], variables={'s': 'output(0.4)'})
+        tgt2 = OperatorTemplate(name='tgt2', equations=["x' = -2.0*x + u"], variables={'x': 'output(0.2)', 'u': 'input(0.0)'})
+        nodes = {'a': NodeTemplate(name='na', operators=[src]), 'a2': NodeTemplate(name='na2', operators=[src2]),
+                 'b': NodeTemplate(name='nb', operators=[tgt]), 'b2': NodeTemplate(name='nb2', operators=[tgt2])}
+        edges = [('a/src/s', 'b/tgt/u', None, {'weight': 2.0, 'delay': 0.004}),
+                 ('a2/src2/s', 'b2/tgt2/u', None, {'weight': 1.5, 'delay': 0.005, 'spread': 0.002})]
+        if order == 1:
+            edges = edges[::-1]
+            nodes = dict(reversed(list(nodes.items())))
+        return CircuitTemplate(name='shaped', nodes=nodes, edges=edges), {'x': 'b/tgt/x'}
+    if shape == 'edge_discrete+matrix_gamma':
+        op = OperatorTemplate(name='rate_p1', equations=["r' = (-r + eta + s_in) / tau_r"],
+                              variables={'r': 'output(0.5)', 'eta': 2.0, 'tau_r': 0.1, 's_in': 'input(0.0)'})
+        pops = {'p1': PopulationTemplate(name='p1', node=NodeTemplate(name='node_p1', operators=[op]), n=2, params={'rate_p1/r': [0.5, 1.5]})}
+        conns = [Connectivity(source='p1/rate_p1/r', target='p1/rate_p1/s_in', weights=np.array([[0.2, 0.0], [0.0, 0.4]]),
+                              delays=0.005, spread=0.002)]
+        src = OperatorTemplate(name='src', equations=["s' = -s + 0.1"], variables={'s': 'output(0.3)'})
+        tgt = OperatorTemplate(name='tgt', equations=["x' = -x + u"], variables={'x': 'output(0.1)', 'u': 'input(0.0)'})
+        nodes = {'a': NodeTemplate(name='na', operators=[src]), 'b': NodeTemplate(name='nb', operators=[tgt])}
+        edges = [('a/src/s', 'b/tgt/u', None, {'weight': 2.0, 'delay': 0.004})]
+        return CircuitTemplate(name='shaped', nodes=nodes, edges=edges, populations=pops, connections=conns), {'x': 'b/tgt/x'}
+    raise ValueError(shape)
 
 
 def plan(tier, seed):
@@ -38,8 +96,19 @@ def plan(tier, seed):
                 for delay in (False, True):
                     combos.append({'kind': 'combo', 'backend': b, 'solver': solver, 'vec': vec, 'delay': delay})
         combos.append({'kind': 'sparse_jac', 'backend': b})
+        # richer shapes of "needs a discrete-delay ring buffer": other delayed connections in the same network, before or
+        # after the ring-buffer connection, scalar or matrix (Connectivity) edges
+        for solver in ['euler', 'heun']:
+            for shape in DELAY_SHAPES:
+                for order in (0, 1):
+                    combos.append({'kind': 'combo', 'backend': b, 'solver': solver, 'vec': True, 'delay': True, 'shape': shape,
+                                   'order': order})
     rnd.shuffle(combos)
     n_combo = 36 if tier == 'quick' else len(combos)
+    if tier == 'quick':
+        # always include the shaped ring-buffer requests (supported ones are skipped without compiling)
+        combos.sort(key=lambda c: 0 if c.get('shape') else 1)
+        n_combo += sum(1 for c in combos if c.get('shape'))
     for c in combos[:n_combo]:
         c.update(family='main', cseed=rnd.randrange(1 << 30))
         cases.append(c)
@@ -125,7 +194,8 @@ def combo_case(case, ctx, rnd, mech, res):
     if case['delay'] and fixed_step and not getattr(cls, 'SUPPORTS_EDGE_DELAY_BUFFER', True):
         unsupported.append(f"{cls.__name__}.SUPPORTS_EDGE_DELAY_BUFFER is False and a discrete delay ring buffer is needed")
     res['features'] += [case['backend'], case['solver'], 'vec' if case['vec'] else 'novec', 'delay' if case['delay'] else 'nodelay']
-    res['sample'] = {'combo': {k: case[k] for k in ('backend', 'solver', 'vec', 'delay')}, 'unsupported_because': unsupported}
+    res['sample'] = {'combo': {k: case.get(k) for k in ('backend', 'solver', 'vec', 'delay', 'shape', 'order')},
+                     'unsupported_because': unsupported}
     if not unsupported:
         mech['supported_combos_skipped'] = 1
         return None
@@ -134,17 +204,25 @@ def combo_case(case, ctx, rnd, mech, res):
     attrs = {'weight': 2.0}
     if case['delay']:
         attrs['delay'] = 0.004
-    c = CircuitTemplate(name='c', nodes={'a': NodeTemplate(name='na', operators=[src]), 'b': NodeTemplate(name='nb', operators=[tgt])},
-                        edges=[('a/src/s', 'b/tgt/u', None, attrs)])
+    outputs = {'x': 'b/tgt/x'}
+    if case.get('shape'):
+        res['features'].append('shape:' + case['shape'])
+        mech['shaped_delay_requests'] = 1
+        c, outputs = shaped_delay_circuit(case['shape'], case['order'])
+    else:
+        c = CircuitTemplate(name='c', nodes={'a': NodeTemplate(name='na', operators=[src]), 'b': NodeTemplate(name='nb', operators=[tgt])},
+                            edges=[('a/src/s', 'b/tgt/u', None, attrs)])
     try:
         with warnings.catch_warnings():
             warnings.simplefilter('ignore')
             out = c.run(simulation_time=0.01, step_size=1e-3, solver=case['solver'], backend=case['backend'], vectorize=case['vec'],
-                        outputs={'x': 'b/tgt/x'}, verbose=False, float_precision='float64', clear=True)
+                        outputs=outputs, verbose=False, float_precision='float64', clear=True)
     except BaseException as e:  # noqa
         if isinstance(e, (KeyboardInterrupt, SystemExit)):
             raise
         mech['unsupported_combos'] = 1
+        if case.get('shape'):
+            mech['shaped_delay_requests_refused'] = 1
         res['sample']['raised'] = f'{type(e).__name__}: {str(e)[:120]}'
         return None
     return (f"unsupported request (backend={case['backend']}, solver={case['solver']}, vectorize={case['vec']}, "
@@ -335,7 +413,7 @@ def malformed_case(case, ctx, rnd, mech, res):
 # MANIFEST-BEGIN
 MANIFEST = {
     'technique': 'fault-injection monitor: unsupported option combinations derived from the live backend classes and single-fault mutations of generated valid models; oracle observes exception / warning / return of each request',
-    'level_text': 'The full backend x solver x vectorize x delay matrix (unsupported derived from SUPPORTED_SOLVERS, SUPPORTS_* flags and _validate_backend_args of the live classes) and single-fault mutations of generated valid models (each path component of edges, outputs, inputs and update_var keys misspelt, declared variables removed, reserved names, two outputs, cyclic node, node-level values for missing operators/variables) are submitted; an unsupported or malformed request must raise before anything is returned, inputs and parameter updates to non-existent variables must at least warn. Held on observed requests only.',
+    'level_text': 'The full backend x solver x vectorize x delay matrix (unsupported derived from SUPPORTED_SOLVERS, SUPPORTS_* flags and _validate_backend_args of the live classes) and single-fault mutations of generated valid models (each path component of edges, outputs, inputs and update_var keys misspelt, declared variables removed, reserved names, two outputs, cyclic node, node-level values for missing operators/variables) are submitted; an unsupported or malformed request must raise before anything is returned, inputs and parameter updates to non-existent variables must at least warn. Ring-buffer requests come in several shapes (scalar and matrix edges, next to gamma-kernel or undelayed connections, either declaration order). Held on observed requests only.',
     'level_note': 'The check never asserts that a supported combination succeeds. Torch / JAX / Fortran are imported inside the forked case process.',
 }
 # MANIFEST-END
